@@ -620,7 +620,7 @@ ScopeChoices(c) ==
     [] Len(c) = 1 -> ShapesFor(c[1])
     [] Len(c) = 2 -> ScopeUses
     [] Len(c) = 3 -> IF c[3] = "bare" THEN ScopePositions \cup BarePositions
-                     ELSE IF c[3] \in {"neg", "eq"} THEN ScopePositions ELSE {"where"}
+                     ELSE IF c[3] \in {"neg", "eq"} \/ Bound >= 1 THEN ScopePositions ELSE {"where"}   \* Bound >= 1: every use at every position
     [] OTHER -> {}
 ScopeQuery(c) ==
   LET e == Canon(UseExpr(c[3])) IN
